@@ -23,10 +23,10 @@ import (
 // accessor of T, the Struct primitives it calls are listed with their literal arguments: offsets, XOR masks, negations,
 // discriminant checks and stores, and the object size in NewT.  The model prints what the schema demands.
 
-const gen15File = 0xf00dfeedf00dfeed
-const gen15T = 0xa1a1a1a1a1a1a101
-const gen15Aux = 0xa1a1a1a1a1a1a102
-const gen15Enum = 0xa1a1a1a1a1a1a103
+const gen15File uint64 = 0xf00dfeedf00dfeed
+const gen15T uint64 = 0xa1a1a1a1a1a1a101
+const gen15Aux uint64 = 0xa1a1a1a1a1a1a102
+const gen15Enum uint64 = 0xa1a1a1a1a1a1a103
 
 type g15field struct {
 	kind   string
@@ -60,6 +60,12 @@ func parseG15(f []string) (dw, ptrs, discOff int, fields []g15field, ok bool) {
 }
 
 func g15Request(dw, ptrs, discOff int, fields []g15field) ([]byte, error) {
+	return g15RequestIDs(dw, ptrs, discOff, fields, 0)
+}
+
+// g15RequestIDs: the same schema with node ids shifted by idShift (the schema registry refuses duplicates)
+func g15RequestIDs(dw, ptrs, discOff int, fields []g15field, idShift uint64) ([]byte, error) {
+	gen15File, gen15T, gen15Aux, gen15Enum := gen15File+idShift*16, gen15T+idShift*16, gen15Aux+idShift*16, gen15Enum+idShift*16
 	msg, seg, err := capnp.NewMessage(capnp.SingleSegment(nil))
 	if err != nil {
 		return nil, err
